@@ -510,3 +510,38 @@ Definition agrees (cf : cfg) (c : case) : bool :=
   perm_str_eqb (realised_names cf t) obs_inits && perm_str_eqb (sd_keys t) obs_sd.
 Fixpoint disagreeing (cf : cfg) (i : nat) (cs : list case) : list nat :=
   match cs with [] => [] | c :: t => ((if agrees cf c then [] else [i]) ++ disagreeing cf (S i) t)%list end.
+
+(* ---------------------------------------------------------------- name collisions (proposed fix: Parameter._realize raises) *)
+(* Parameter._realize, the effective realisations one after the other (an object already realised is
+   skipped, `first_by_id`).  A separate, probed behaviour (NOT a field of `cfg`):
+     raises_on_collision = false  (as read)   root.graph.initializers[name] = self  -- a different
+                                              Parameter already stored under `name` is silently replaced
+     raises_on_collision = true   (patched)   ValueError naming `name` when another Parameter object is
+                                              already stored under it; nothing else changes
+   `existing is not self` always holds at this point: `self` is stored only by its own first realisation. *)
+Inductive outcome :=
+| Raised (name : string)                    (* ValueError: initializer name already used by another Parameter *)
+| Returned (d : list (string * nat)).       (* root.graph.initializers as name -> Parameter identity *)
+
+Fixpoint realise_all (raises_on_collision : bool) (evs : list (nat * string)) (d : list (string * nat))
+  : outcome :=
+  match evs with
+  | [] => Returned d
+  | (i, n) :: r =>
+    if raises_on_collision && mem_str n (map fst d) then Raised n
+    else realise_all raises_on_collision r (dict_set n i d)
+  end.
+
+(* calling the root module once: the initializers, or the ValueError *)
+Definition call_result (raises_on_collision : bool) (cf : cfg) (t : mtree) : outcome :=
+  realise_all raises_on_collision (first_by_id [] (events cf false [] [] t)) [].
+
+(* no two different Parameter objects are realised under one qualified name *)
+Definition collision_free (cf : cfg) (t : mtree) : bool :=
+  nodup_strb (map snd (first_by_id [] (events cf false [] [] t))).
+
+Definition returns (o : outcome) : bool := match o with Returned _ => true | Raised _ => false end.
+
+(* what the harness prints per case: (the model returns, the name it raises for | "") *)
+Definition outcome_view (o : outcome) : bool * string :=
+  match o with Returned _ => (true, "") | Raised n => (false, n) end.
